@@ -4,38 +4,54 @@
 //!   `TUMBLE <ts> <size> <off>`                      answer: `W <start> <end>` | `PANIC`
 //!   `TUMBLE-WRAP <ts> <size> <off>`                 the CURRENT src/window.rs compiled with release arithmetic
 //!                                                   (crate `relwin`: wrapping, no debug assertions)   ↔ Lean `tumbleWrapping`
-//!   `TUMBLE-LEGACY <ts> <size> <off>`               the PRE-FIX src/window.rs (from git history), overflow-checking
-//!                                                   (crate `chkwin`)                                  ↔ Lean `Legacy.tumble`
-//!   `TUMBLE-LEGACY-WRAP <ts> <size> <off>`          the pre-fix source with release arithmetic        ↔ Lean `Legacy.tumbleWrapping`
+//!   `TUMBLE-LEGACY <ts> <size> <off>`               the PRE-FIX `tumble` (vendored text harness/chkwin/legacy_window.rs),
+//!                                                   overflow-checking (crate `chkwin`)                ↔ Lean `Legacy.tumble`
+//!   `TUMBLE-LEGACY-WRAP <ts> <size> <off>`          the pre-fix text with release arithmetic          ↔ Lean `Legacy.tumbleWrapping`
+//!   `WNEW <start> <end>` / `WNEW-REL <start> <end>` `Window::new` of the linked crate (debug assertions on) / of the release
+//!                                                   copy; answer `W <start> <end>` | `PANIC`           ↔ Lean `Window.new?` / `Window.newRelease`
 //!   `WGROUP <op> <size> <off> <mode> <src> <rows>`  answer: `OK <rows>` | `PANIC` | `ERR collect` (collect returned Err)
 //!       op   : kbw  (unkeyed key_by_window)         rows in : `ts:val,…`            out: `start-end:val,…` (input order)
-//!              gbw  (group_by_window)               rows in : `ts:val,…`            out: `start-end:v.v.v,…` (groups sorted by window;
-//!                                                                                        group CONTENTS in the order the code produced)
+//!              gbw  (group_by_window)               rows in : `ts:val,…`            out: `start-end:v.v.v,…`
 //!              kkbw (keyed key_by_window)           rows in : `key:ts:val,…`        out: `key@start-end:val,…` (input order)
-//!              gbkw (group_by_key_and_window)       rows in : `key:ts:val,…`        out: `key@start-end:v.v,…` (groups sorted, contents as produced)
-//!       mode : `seq` | `par:<threads>:<partitions>` (`Some(partitions)`, 0 included) |
-//!              `par:<threads>:none:<eff>` (`partitions = None`; `<eff>` = what `Runner::run_collect` resolves it to on
-//!              this machine: the planner's suggestion, read from the real `build_plan`)
-//!       src  : how the timestamped collection is built (helpers/timestamped.rs): `d` from_vec of Timestamped,
-//!              `t` from_vec of (ts,val) + to_timestamped(), `a` from_vec of (ts,val) + attach_timestamps(|r| r.0)
-//!              (keyed ops: always `d`)
+//!              gbkw (group_by_key_and_window)       rows in : `key:ts:val,…`        out: `key@start-end:v.v,…`
+//!              gbwv (group_by_window(..).map_values(clone).filter_values(true): something FOLLOWS the window op)  out: as gbw
+//!              gbwl (group_by_window(..).combine_values_lifted(Sum): the planner lifts the GroupByKey)             out: `start-end:sum,…`
+//!              gbws (group_by_window(..) collected with collect_seq_sorted / collect_par_sorted_by_key: `Window: Ord` decides
+//!                    the row order)                                                  out: as gbw but rows in the order PRODUCED
+//!              gbwj (group_by_window(..) inner-joined with a second group_by_window of the same events: the GroupByKey nodes run
+//!                    inside the CoGroup sub-plans, `run_subplan_seq` / `run_subplan_par`) out: `start-end:l.l|r.r,…`
+//!              grouped answers: rows sorted by key (except gbws), group CONTENTS sorted — the order inside a group is not part of the
+//!              property (it is observed separately and reported as a note, see `group-order:*` counters)
+//!       mode : `seq` | `par:<threads>:<partitions>` (`Some(partitions)`, 0 included) | `par:<threads>:none` (`partitions = None`:
+//!              the runner resolves it to a machine-dependent count; the answer is proved independent of it) |
+//!              `ckseq` | `ckpar:<threads>:<partitions>` = the same run through `Runner { checkpoint_config: Some(enabled) }`
+//!              (the checkpointing executors have their own GroupByKey execution sites)
+//!       src  : how the timestamped collection is built: `d` from_vec of Timestamped, `t` from_vec of (ts,val) + to_timestamped(),
+//!              `a` from_vec of (ts,val) + attach_timestamps(|r| r.0) + map (drop the carried row);
+//!              keyed ops: `d` from_vec of (key, Timestamped), `k` from_vec of (key,ts,val) rows +
+//!              attach_timestamps(|r| r.1).key_by(|ev| ev.value.0).map_values(drop the carried row)   (helpers/keyed.rs::key_by)
 //!       empty row list = `-`
+//!   `WPLAN <op> <src>`                              answer: node kinds of the chain the REAL runner receives for that pipeline (hook on_plan),
+//!                                                   e.g. `Source,Stateless1,GroupByKey`                 ↔ Lean `planKinds` (planner model on the builders' chain)
 //!   `WCMP <s1> <e1> <s2> <e2>`                      answer: `<a==b T|F> <cmp LT|EQ|GT> <a==b → same hash T|F> <partial_cmp LT|EQ|GT|NONE>`
-//! The real side runs the REAL `Window::tumble` / REAL pipelines (from_vec → helpers → collect_seq /
-//! collect_par) in this overflow-checking build under catch_unwind (panic ↔ model `none`).
+//! The real side runs the REAL `Window::tumble` / REAL pipelines in this overflow-checking build under catch_unwind
+//! (panic ↔ model `none`).
 //! Oracles (independent of the model, i128 reference arithmetic):
 //!   TUMBLE: start ≤ ts < end, end − start = size, (start − off) ≡ 0 mod size; and the call must not panic
 //!           when a window with those properties is representable in u64 (size ≥ 1).
 //!   WGROUP: every row keeps its value and gets a window with the four properties; groups have distinct
 //!           keys, every group holds exactly the multiset of input values whose ts lies in the group's window
 //!           (and whose key is the group's key), counts add up to the input length; par result == seq result
-//!           (as sets of groups with multiset contents — the order inside a group is not part of the property; it
-//!           IS part of the model correspondence, which validates the "in input order" clause of the Lean theorems).
+//!           (as sets of groups with multiset contents); the derived ops must show exactly the reference grouping.
 //!   TUMBLE-WRAP: where a representable window exists the release build must return exactly it.
 //!   TUMBLE-LEGACY*: no oracle (the defective pinned code; these lines only validate the `Legacy.*` Lean models).
+//! Nothing here depends on wall-clock time, on statistics or on the machine: no verdict can change with load or seed luck.
+//! A missing / non-compiling source copy never fails the build and never passes silently: `source_copy_status` writes a
+//! `VALIDATION INCOMPLETE` note and `validation:*=NOT-VALIDATED` counters into the evidence.
 
 use crate::ctx::{Ctx, guarded};
-use ironbeam::{Pipeline, Runner, Timestamped, Window, from_vec};
+use ironbeam::checkpoint::{CheckpointConfig, CheckpointPolicy};
+use ironbeam::{ExecMode, PCollection, Pipeline, RFBound, Runner, Sum, Timestamped, Window, from_vec};
 use std::collections::BTreeMap;
 
 type Row = (u64, i64); // (ts, value)
@@ -100,37 +116,58 @@ fn wstr<W>(r: &Result<W, String>, f: impl Fn(&W) -> (u64, u64)) -> String {
     match r { Ok(w) => { let (s, e) = f(w); format!("W {s} {e}") } Err(_) => "PANIC".to_string() }
 }
 
-/// `TUMBLE-WRAP` (+ `TUMBLE-LEGACY`, `TUMBLE-LEGACY-WRAP` when the pre-fix source is available)
+fn current_copy_ok() -> bool { relwin::CURRENT_AVAILABLE && chkwin::CURRENT_AVAILABLE }
+fn legacy_copy_ok() -> bool { relwin::LEGACY_AVAILABLE && chkwin::LEGACY_AVAILABLE }
+
+/// LOUD accounting of what the textual source copies allow this run to validate (evidence: `notes` +
+/// `input_distribution["validation:…"]`). Never an exit code: a missing copy is a gap of the check, not a defect of the crate.
+fn source_copy_status(cx: &mut Ctx) {
+    let state = |ok: bool| if ok { "validated" } else { "NOT-VALIDATED" };
+    cx.count(&format!("validation:TUMBLE-WRAP+WNEW-REL(tumbleWrapping_eq,tumbleWrapping_total,tumbleWrapping_garbage_on_none_domain,groupByWindow_release,groupByWindow_release_garbage,window_new_iff[release])={}", state(current_copy_ok())));
+    cx.count(&format!("validation:TUMBLE-LEGACY*(legacy_tumble_sound,legacy_tumble_not_total,legacy_tumble_total_partial,fix_conservative)={}", state(legacy_copy_ok())));
+    if !current_copy_ok() {
+        let why = if relwin::CURRENT_REASON.is_empty() { chkwin::CURRENT_REASON } else { relwin::CURRENT_REASON };
+        cx.notes.push(format!("VALIDATION INCOMPLETE: the stand-alone copy of the current src/window.rs is unavailable ({why}); no TUMBLE-WRAP / WNEW-REL case was run, so the Lean definitions `tumbleWrapping` / `Window.newRelease` and the theorems tumbleWrapping_eq, tumbleWrapping_total, tumbleWrapping_garbage_on_none_domain, groupByWindow_release, groupByWindow_release_garbage and the release clause of window_new_iff are proved but NOT VALIDATED against the code in this run"));
+    }
+    if !legacy_copy_ok() {
+        let why = if relwin::LEGACY_REASON.is_empty() { chkwin::LEGACY_REASON } else { relwin::LEGACY_REASON };
+        cx.notes.push(format!("VALIDATION INCOMPLETE: the vendored pre-fix text harness/chkwin/legacy_window.rs is unavailable ({why}); no TUMBLE-LEGACY / TUMBLE-LEGACY-WRAP case was run, so `Legacy.tumble` / `Legacy.tumbleWrapping` and the theorems legacy_tumble_sound, legacy_tumble_not_total, legacy_tumble_total_partial, fix_conservative are proved but NOT VALIDATED against the pre-fix code in this run"));
+    } else {
+        cx.notes.push(format!("pre-fix `tumble` text: {}", relwin::LEGACY_ORIGIN));
+    }
+}
+
+/// `TUMBLE-WRAP` (current text, release arithmetic) and `TUMBLE-LEGACY`, `TUMBLE-LEGACY-WRAP` (vendored pre-fix text)
 fn one_tumble_variants(cx: &mut Ctx, ts: u64, size: u64, off: u64) {
-    if !(relwin::CURRENT_AVAILABLE && chkwin::CURRENT_AVAILABLE) {
-        cx.count("window-source-copy:unavailable(not standalone)");
-        return;
-    }
-    // integrity of the textual copy: compiled with the same (checking) profile it must behave like the linked crate
-    let linked = wstr(&guarded(|| Window::tumble(ts, size, off)), |w| (w.start, w.end));
-    let copy = wstr(&guarded(|| chkwin::current::Window::tumble(ts, size, off)), |w| (w.start, w.end));
-    // release arithmetic, current source
-    let r = guarded(|| relwin::current::Window::tumble(ts, size, off));
-    let ans = wstr(&r, |w| (w.start, w.end));
-    let i = cx.case(format!("TUMBLE-WRAP {ts} {size} {off}"), ans.clone(), size >= 1);
-    if linked != copy {
-        cx.oracle_fail(i, "window-source-copy-differs-from-linked-crate", format!("tumble({ts},{size},{off}): linked {linked}, copy of src/window.rs {copy}"));
-    }
-    match (ref_window(ts, size, off), &r) {
-        (Some((s, e)), Ok(w)) => {
-            cx.count("wrap:representable");
-            if (w.start, w.end) != (s, e) {
-                cx.oracle_fail(i, "tumble-release-window-wrong", format!("release build: tumble({ts},{size},{off}) = [{},{}) but the window is [{s},{e})", w.start, w.end));
+    if current_copy_ok() {
+        // integrity of the textual copy: compiled with the same (checking) profile it must behave like the linked crate
+        let linked = wstr(&guarded(|| Window::tumble(ts, size, off)), |w| (w.start, w.end));
+        let copy = wstr(&guarded(|| chkwin::current::Window::tumble(ts, size, off)), |w| (w.start, w.end));
+        // release arithmetic, current source
+        let r = guarded(|| relwin::current::Window::tumble(ts, size, off));
+        let ans = wstr(&r, |w| (w.start, w.end));
+        let i = cx.case(format!("TUMBLE-WRAP {ts} {size} {off}"), ans.clone(), size >= 1);
+        if linked != copy {
+            cx.oracle_fail(i, "window-source-copy-differs-from-linked-crate", format!("tumble({ts},{size},{off}): linked {linked}, copy of src/window.rs {copy}"));
+        }
+        match (ref_window(ts, size, off), &r) {
+            (Some((s, e)), Ok(w)) => {
+                cx.count("wrap:representable");
+                if (w.start, w.end) != (s, e) {
+                    cx.oracle_fail(i, "tumble-release-window-wrong", format!("release build: tumble({ts},{size},{off}) = [{},{}) but the window is [{s},{e})", w.start, w.end));
+                }
             }
+            (Some((s, e)), Err(m)) => {
+                cx.count("wrap:representable");
+                cx.oracle_fail(i, "tumble-release-panics-though-window-representable", format!("release build: tumble({ts},{size},{off}) panicked ({m}) although [{s},{e}) is the window"));
+            }
+            (None, Ok(_)) => cx.count("wrap:none-domain:garbage-window"),
+            (None, Err(_)) => cx.count("wrap:none-domain:panic"),
         }
-        (Some((s, e)), Err(m)) => {
-            cx.count("wrap:representable");
-            cx.oracle_fail(i, "tumble-release-panics-though-window-representable", format!("release build: tumble({ts},{size},{off}) panicked ({m}) although [{s},{e}) is the window"));
-        }
-        (None, Ok(_)) => cx.count("wrap:none-domain:garbage-window"),
-        (None, Err(_)) => cx.count("wrap:none-domain:panic"),
+    } else {
+        cx.count("window-source-copy:unavailable");
     }
-    if relwin::LEGACY_AVAILABLE && chkwin::LEGACY_AVAILABLE {
+    if legacy_copy_ok() {
         let r = guarded(|| chkwin::legacy::Window::tumble(ts, size, off));
         cx.case(format!("TUMBLE-LEGACY {ts} {size} {off}"), wstr(&r, |w| (w.start, w.end)), size >= 1 && r.is_ok());
         cx.count(if r.is_ok() { "legacy:window" } else if ref_window(ts, size, off).is_some() { "legacy:panic-though-representable" } else { "legacy:panic" });
@@ -143,6 +180,54 @@ fn one_tumble_variants(cx: &mut Ctx, ts: u64, size: u64, off: u64) {
     } else {
         cx.count("legacy-source:unavailable");
     }
+}
+
+// ---------------------------------------------------------------- WNEW (`Window::new`, the other public constructor)
+
+fn one_wnew(cx: &mut Ctx, s: u64, e: u64) {
+    let r = guarded(|| Window::new(s, e));
+    let i = cx.case(format!("WNEW {s} {e}"), wstr(&r, |w| (w.start, w.end)), true);
+    cx.count(if r.is_ok() { "wnew:window" } else { "wnew:panic" });
+    match &r {
+        Ok(w) => if (w.start, w.end) != (s, e) { cx.oracle_fail(i, "window-new-changes-fields", format!("Window::new({s},{e}) = [{},{})", w.start, w.end)); },
+        Err(m) => if e >= s { cx.oracle_fail(i, "window-new-panics-on-valid-interval", format!("Window::new({s},{e}) panicked ({m})")); },
+    }
+    if current_copy_ok() {
+        let r = guarded(|| relwin::current::Window::new(s, e));
+        cx.case(format!("WNEW-REL {s} {e}"), wstr(&r, |w| (w.start, w.end)), true);
+    }
+}
+
+// ---------------------------------------------------------------- WPLAN (the chain the runner executes for a windowing pipeline)
+
+/// node kinds of the chain `Runner::run_collect` receives (hook `verif_hooks::on_plan`) for `from_vec → src helpers → op`
+/// on a two-event input, against the planner MODEL applied to the builders' chain (Lean `planKinds`). This is what ties
+/// the plan shape of `groupByWindow_engine` / `groupByKeyAndWindow_engine` to the real builders + planner.
+fn one_wplan(cx: &mut Ctx, op: &str, src: &str) {
+    let observed: std::sync::Arc<std::sync::Mutex<Vec<Vec<String>>>> = Default::default();
+    let o2 = observed.clone();
+    ironbeam::verif_hooks::set_plan_callback(Some(std::sync::Arc::new(move |k: &[String]| o2.lock().unwrap().push(k.to_vec()))));
+    let rows: Vec<Row> = vec![(7, 70), (27, 71)];
+    let krows: Vec<KRow> = vec![(1, 7, 70), (2, 27, 71)];
+    let usrc = match src { "t" => Src::T, "a" => Src::A, _ => Src::D };
+    let ksrc = if src == "k" { KSrc::K } else { KSrc::D };
+    let r = guarded(|| -> Result<(), String> {
+        let p = Pipeline::default();
+        match op {
+            "kbw" => { collect_mode(&p, build_ts(&p, &rows, usrc).key_by_window(10, 25), Mode::Seq)?; }
+            "gbw" | "gbws" => { collect_mode(&p, build_ts(&p, &rows, usrc).group_by_window(10, 25), Mode::Seq)?; }
+            "gbwv" => { collect_mode(&p, build_ts(&p, &rows, usrc).group_by_window(10, 25).map_values(|vs: &Vec<i64>| vs.clone()).filter_values(|_vs: &Vec<i64>| true), Mode::Seq)?; }
+            "gbwl" => { collect_mode(&p, build_ts(&p, &rows, usrc).group_by_window(10, 25).combine_values_lifted(Sum::<i64>::new()), Mode::Seq)?; }
+            "kkbw" => { collect_mode(&p, build_kts(&p, &krows, ksrc).key_by_window(10, 25), Mode::Seq)?; }
+            _ => { collect_mode(&p, build_kts(&p, &krows, ksrc).group_by_key_and_window(10, 25), Mode::Seq)?; }
+        }
+        Ok(())
+    });
+    ironbeam::verif_hooks::set_plan_callback(None);
+    let ran: Vec<String> = observed.lock().unwrap().first().cloned().unwrap_or_default();
+    let ans = match r { Ok(Ok(())) => ran.join(","), Ok(Err(_)) => "ERR collect".into(), Err(_) => "PANIC".into() };
+    cx.case(format!("WPLAN {op} {src}"), ans, true);
+    cx.count("wplan");
 }
 
 // ---------------------------------------------------------------- WCMP (Eq / Ord / Hash of Window)
@@ -165,26 +250,36 @@ fn one_wcmp(cx: &mut Ctx, a: (u64, u64), b: (u64, u64)) {
     if eq && !heq { cx.oracle_fail(i, "window-hash-inconsistent-with-eq", format!("{a:?} == {b:?} but hashes differ")); }
 }
 
+
 // ---------------------------------------------------------------- WGROUP
 
 #[derive(Clone, Copy, PartialEq, Eq, Debug)]
-enum Mode { Seq, Par(usize, Option<usize>) }
+enum Mode { Seq, Par(usize, Option<usize>), CkSeq, CkPar(usize, usize) }
 impl Mode {
-    /// `eff` = the partition count `run_collect` resolves `None` to for this input
-    fn enc(&self, eff: usize) -> String {
-        match self { Mode::Seq => "seq".into(), Mode::Par(t, Some(p)) => format!("par:{t}:{p}"), Mode::Par(t, None) => format!("par:{t}:none:{eff}") }
+    fn enc(&self) -> String {
+        match self {
+            Mode::Seq => "seq".into(),
+            Mode::Par(t, Some(p)) => format!("par:{t}:{p}"),
+            Mode::Par(t, None) => format!("par:{t}:none"),
+            Mode::CkSeq => "ckseq".into(),
+            Mode::CkPar(t, p) => format!("ckpar:{t}:{p}"),
+        }
     }
+    fn is_ck(&self) -> bool { matches!(self, Mode::CkSeq | Mode::CkPar(..)) }
+    fn threads(&self) -> Option<usize> { match self { Mode::Par(t, _) | Mode::CkPar(t, _) => Some(*t), _ => None } }
 }
 
-/// what `Runner::run_collect` turns `partitions = None` into for a `from_vec` source of these rows:
-/// `partitions.or(plan.suggested_partitions).unwrap_or(runner.default_partitions)`, read from the real planner
-fn effective_default_partitions(rows: &[Row]) -> usize {
-    let p = Pipeline::default();
-    let _c = from_vec(&p, rows.to_vec()).to_timestamped().group_by_window(1, 0);
-    let (nodes, edges) = p.snapshot();
-    let terminal = nodes.keys().copied().find(|id| !edges.iter().any(|(from, _)| from == id)).expect("terminal node");
-    let plan = ironbeam::planner::build_plan(&p, terminal).expect("plan");
-    plan.suggested_partitions.unwrap_or(Runner::default().default_partitions)
+/// what `Runner::run_collect` turns `partitions = None` into for a `from_vec` source of these rows
+/// (`partitions.or(plan.suggested_partitions).unwrap_or(runner.default_partitions)`), read from the real planner.
+/// Statistics only (machine dependent: 2 x cores): it is NOT part of any request or answer.
+fn effective_default_partitions(rows: &[Row]) -> Option<usize> {
+    let rows = rows.to_vec();
+    guarded(move || {
+        let p = Pipeline::default();
+        let c = from_vec(&p, rows).to_timestamped().group_by_window(1, 0);
+        let plan = ironbeam::planner::build_plan(&p, c.node_id()).ok()?;
+        Some(plan.suggested_partitions.unwrap_or(Runner::default().default_partitions))
+    }).ok().flatten()
 }
 
 /// outcome of a real pipeline run: value, `Err` returned by collect, or panic
@@ -206,84 +301,138 @@ fn enc_krows(rows: &[KRow]) -> String {
 fn join_or_dash(v: Vec<String>) -> String { if v.is_empty() { "-".into() } else { v.join(",") } }
 fn dots(vs: &[i64]) -> String { vs.iter().map(|x| x.to_string()).collect::<Vec<_>>().join(".") }
 
-struct Pools { pools: BTreeMap<usize, rayon::ThreadPool> }
+/// dedicated rayon pools by size; `None` = the pool could not be built (thread spawn refused under extreme load):
+/// the run then uses rayon's global pool — same results, only the worker count differs (counted, never a verdict)
+struct Pools { pools: BTreeMap<usize, Option<rayon::ThreadPool>>, fallbacks: u64 }
 impl Pools {
-    fn new() -> Self { Pools { pools: BTreeMap::new() } }
-    fn get(&mut self, t: usize) -> &rayon::ThreadPool {
-        self.pools.entry(t).or_insert_with(|| rayon::ThreadPoolBuilder::new().num_threads(t).build().expect("pool"))
+    fn new() -> Self { Pools { pools: BTreeMap::new(), fallbacks: 0 } }
+    fn get(&mut self, t: usize) -> Option<&rayon::ThreadPool> {
+        let e = self.pools.entry(t).or_insert_with(|| {
+            (0..3).find_map(|k| { if k > 0 { std::thread::sleep(std::time::Duration::from_millis(200)); } rayon::ThreadPoolBuilder::new().num_threads(t).build().ok() })
+        });
+        if e.is_none() { self.fallbacks += 1; }
+        e.as_ref()
     }
 }
 
 /// run `f` sequentially or inside a pool of exactly `threads` workers (rayon's global pool can be
 /// sized only once per process, so `collect_par`'s own `threads` argument is honoured only the first time)
 fn in_mode<T: Send>(pools: &mut Pools, mode: Mode, f: impl FnOnce() -> T + Send) -> Result<T, String> {
-    match mode {
-        Mode::Seq => guarded(f),
-        Mode::Par(t, _) => { let pool = pools.get(t); guarded(|| pool.install(f)) }
+    match mode.threads().and_then(|t| pools.get(t)) {
+        None => guarded(f),
+        Some(pool) => guarded(|| pool.install(f)),
     }
 }
 
-type WRow = ((u64, u64), i64);
-type WGroup = ((u64, u64), Vec<i64>);
-type KWRow = ((i64, (u64, u64)), i64);
-type KWGroup = ((i64, (u64, u64)), Vec<i64>);
+/// marker of a checkpointed run that could not even start for reasons of the ENVIRONMENT (no scratch directory)
+const NO_SCRATCH: &str = "c13: no scratch directory for the checkpointed run";
 
-/// how the `PCollection<Timestamped<_>>` is built: `d`irect `from_vec`, `t` = `(ts, v)` rows through
-/// `to_timestamped()`, `a` = `(ts, v)` rows through `attach_timestamps(|r| r.0)` (value stays the whole row)
+fn scratch_dir() -> Option<tempfile::TempDir> {
+    let shm = std::path::Path::new("/dev/shm");
+    if shm.is_dir() { if let Ok(t) = tempfile::tempdir_in(shm) { return Some(t); } }
+    tempfile::tempdir().ok()
+}
+
+/// the terminal `collect` of a run, by mode; `sorted` = the crate's own sorted collectors (`Window: Ord` at work)
+fn collect_mode<T: RFBound>(p: &Pipeline, c: PCollection<T>, mode: Mode) -> Result<Vec<T>, String> {
+    match mode {
+        Mode::Seq => c.collect_seq(),
+        Mode::Par(t, n) => c.collect_par(Some(t), n),
+        Mode::CkSeq | Mode::CkPar(..) => {
+            let Some(dir) = scratch_dir() else { return Err(NO_SCRATCH.to_string()); };
+            let runner = Runner {
+                mode: match mode { Mode::CkPar(t, n) => ExecMode::Parallel { threads: Some(t), partitions: Some(n) }, _ => ExecMode::Sequential },
+                checkpoint_config: Some(CheckpointConfig { enabled: true, directory: dir.path().to_path_buf(), policy: CheckpointPolicy::AfterEveryBarrier, auto_recover: false, max_checkpoints: Some(2) }),
+                ..Default::default()
+            };
+            runner.run_collect::<T>(p, c.node_id())
+        }
+    }.map_err(|e| format!("{e:#}"))
+}
+
+type W2 = (u64, u64);
+type WRow = (W2, i64);
+type WGroup = (W2, Vec<i64>);
+type KWRow = ((i64, W2), i64);
+type KWGroup = ((i64, W2), Vec<i64>);
+fn w2(w: &Window) -> W2 { (w.start, w.end) }
+
+/// how the `PCollection<Timestamped<i64>>` is built (helpers/timestamped.rs)
 #[derive(Clone, Copy, PartialEq, Eq, Debug)]
 enum Src { D, T, A }
 impl Src { fn enc(&self) -> &'static str { match self { Src::D => "d", Src::T => "t", Src::A => "a" } } }
+/// how the keyed `PCollection<(i64, Timestamped<i64>)>` is built: `D`irect, or `K` = attach_timestamps + key_by (helpers/keyed.rs)
+#[derive(Clone, Copy, PartialEq, Eq, Debug)]
+enum KSrc { D, K }
+impl KSrc { fn enc(&self) -> &'static str { match self { KSrc::D => "d", KSrc::K => "k" } } }
 
-macro_rules! collect_mode {
-    ($c:expr, $mode:expr) => {
-        match $mode { Mode::Seq => $c.collect_seq(), Mode::Par(t, n) => $c.collect_par(Some(t), n) }.map_err(|e| format!("{e:#}"))?
-    };
+fn build_ts(p: &Pipeline, rows: &[Row], src: Src) -> PCollection<Timestamped<i64>> {
+    match src {
+        Src::D => from_vec(p, rows.iter().map(|(t, v)| Timestamped::new(*t, *v)).collect::<Vec<_>>()),
+        Src::T => from_vec(p, rows.to_vec()).to_timestamped(),
+        Src::A => from_vec(p, rows.to_vec()).attach_timestamps(|r: &Row| r.0).map(|ev: &Timestamped<Row>| Timestamped::new(ev.ts, ev.value.1)),
+    }
 }
+fn build_kts(p: &Pipeline, rows: &[KRow], src: KSrc) -> PCollection<(i64, Timestamped<i64>)> {
+    match src {
+        KSrc::D => from_vec(p, rows.iter().map(|(k, t, v)| (*k, Timestamped::new(*t, *v))).collect::<Vec<_>>()),
+        KSrc::K => from_vec(p, rows.to_vec()).attach_timestamps(|r: &KRow| r.1).key_by(|ev: &Timestamped<KRow>| ev.value.0)
+            .map_values(|ev: &Timestamped<KRow>| Timestamped::new(ev.ts, ev.value.2)),
+    }
+}
+
+#[derive(Clone, Copy, PartialEq, Eq, Debug)]
+enum UOp { Gbw, Gbwv, Gbws, Gbwj }
+impl UOp { fn enc(&self) -> &'static str { match self { UOp::Gbw => "gbw", UOp::Gbwv => "gbwv", UOp::Gbws => "gbws", UOp::Gbwj => "gbwj" } } }
 
 fn real_kbw(pools: &mut Pools, rows: &[Row], size: u64, off: u64, mode: Mode, src: Src) -> Out<Vec<WRow>> {
-    let rows = rows.to_vec();
     Out::from(in_mode(pools, mode, move || -> Result<Vec<WRow>, String> {
         let p = Pipeline::default();
-        Ok(match src {
-            Src::D => {
-                let data: Vec<Timestamped<i64>> = rows.iter().map(|(t, v)| Timestamped::new(*t, *v)).collect();
-                collect_mode!(from_vec(&p, data).key_by_window(size, off), mode).into_iter().map(|(w, v)| ((w.start, w.end), v)).collect()
-            }
-            Src::T => collect_mode!(from_vec(&p, rows).to_timestamped().key_by_window(size, off), mode)
-                .into_iter().map(|(w, v)| ((w.start, w.end), v)).collect(),
-            Src::A => collect_mode!(from_vec(&p, rows).attach_timestamps(|r: &Row| r.0).key_by_window(size, off), mode)
-                .into_iter().map(|(w, v)| ((w.start, w.end), v.1)).collect(),
-        })
+        Ok(collect_mode(&p, build_ts(&p, rows, src).key_by_window(size, off), mode)?.iter().map(|(w, v)| (w2(w), *v)).collect())
     }))
 }
-fn real_gbw(pools: &mut Pools, rows: &[Row], size: u64, off: u64, mode: Mode, src: Src) -> Out<Vec<WGroup>> {
-    let rows = rows.to_vec();
+/// gbw / gbwv / gbws: a list of groups (for gbwj see `real_gbwj`)
+fn real_groups(pools: &mut Pools, op: UOp, rows: &[Row], size: u64, off: u64, mode: Mode, src: Src) -> Out<Vec<WGroup>> {
     Out::from(in_mode(pools, mode, move || -> Result<Vec<WGroup>, String> {
         let p = Pipeline::default();
-        Ok(match src {
-            Src::D => {
-                let data: Vec<Timestamped<i64>> = rows.iter().map(|(t, v)| Timestamped::new(*t, *v)).collect();
-                collect_mode!(from_vec(&p, data).group_by_window(size, off), mode).into_iter().map(|(w, vs)| ((w.start, w.end), vs)).collect()
-            }
-            Src::T => collect_mode!(from_vec(&p, rows).to_timestamped().group_by_window(size, off), mode)
-                .into_iter().map(|(w, vs)| ((w.start, w.end), vs)).collect(),
-            Src::A => collect_mode!(from_vec(&p, rows).attach_timestamps(|r: &Row| r.0).group_by_window(size, off), mode)
-                .into_iter().map(|(w, vs)| ((w.start, w.end), vs.into_iter().map(|r| r.1).collect())).collect(),
-        })
+        let g = build_ts(&p, rows, src).group_by_window(size, off);
+        let out = match op {
+            UOp::Gbw => collect_mode(&p, g, mode)?,
+            UOp::Gbwv => collect_mode(&p, g.map_values(|vs: &Vec<i64>| vs.clone()).filter_values(|_vs: &Vec<i64>| true), mode)?,
+            UOp::Gbws => match mode {
+                Mode::Par(t, n) => g.collect_par_sorted_by_key(Some(t), n).map_err(|e| format!("{e:#}"))?,
+                _ => g.collect_seq_sorted().map_err(|e| format!("{e:#}"))?,
+            },
+            UOp::Gbwj => unreachable!(),
+        };
+        Ok(out.iter().map(|(w, vs)| (w2(w), vs.clone())).collect())
     }))
 }
-fn real_kkbw(pools: &mut Pools, rows: &[KRow], size: u64, off: u64, mode: Mode) -> Out<Vec<KWRow>> {
-    let data: Vec<(i64, Timestamped<i64>)> = rows.iter().map(|(k, t, v)| (*k, Timestamped::new(*t, *v))).collect();
+fn real_gbwl(pools: &mut Pools, rows: &[Row], size: u64, off: u64, mode: Mode, src: Src) -> Out<Vec<WRow>> {
+    Out::from(in_mode(pools, mode, move || -> Result<Vec<WRow>, String> {
+        let p = Pipeline::default();
+        let c = build_ts(&p, rows, src).group_by_window(size, off).combine_values_lifted(Sum::<i64>::new());
+        Ok(collect_mode(&p, c, mode)?.iter().map(|(w, s)| (w2(w), *s)).collect())
+    }))
+}
+fn real_gbwj(pools: &mut Pools, rows: &[Row], size: u64, off: u64, mode: Mode, src: Src) -> Out<Vec<(W2, (Vec<i64>, Vec<i64>))>> {
+    Out::from(in_mode(pools, mode, move || -> Result<Vec<(W2, (Vec<i64>, Vec<i64>))>, String> {
+        let p = Pipeline::default();
+        let l = build_ts(&p, rows, src).group_by_window(size, off);
+        let r = build_ts(&p, rows, src).group_by_window(size, off);
+        Ok(collect_mode(&p, l.join_inner(&r), mode)?.iter().map(|(w, (a, b))| (w2(w), (a.clone(), b.clone()))).collect())
+    }))
+}
+fn real_kkbw(pools: &mut Pools, rows: &[KRow], size: u64, off: u64, mode: Mode, src: KSrc) -> Out<Vec<KWRow>> {
     Out::from(in_mode(pools, mode, move || -> Result<Vec<KWRow>, String> {
         let p = Pipeline::default();
-        Ok(collect_mode!(from_vec(&p, data).key_by_window(size, off), mode).into_iter().map(|((k, w), v)| ((k, (w.start, w.end)), v)).collect())
+        Ok(collect_mode(&p, build_kts(&p, rows, src).key_by_window(size, off), mode)?.iter().map(|((k, w), v)| ((*k, w2(w)), *v)).collect())
     }))
 }
-fn real_gbkw(pools: &mut Pools, rows: &[KRow], size: u64, off: u64, mode: Mode) -> Out<Vec<KWGroup>> {
-    let data: Vec<(i64, Timestamped<i64>)> = rows.iter().map(|(k, t, v)| (*k, Timestamped::new(*t, *v))).collect();
+fn real_gbkw(pools: &mut Pools, rows: &[KRow], size: u64, off: u64, mode: Mode, src: KSrc) -> Out<Vec<KWGroup>> {
     Out::from(in_mode(pools, mode, move || -> Result<Vec<KWGroup>, String> {
         let p = Pipeline::default();
-        Ok(collect_mode!(from_vec(&p, data).group_by_key_and_window(size, off), mode).into_iter().map(|((k, w), vs)| ((k, (w.start, w.end)), vs)).collect())
+        Ok(collect_mode(&p, build_kts(&p, rows, src).group_by_key_and_window(size, off), mode)?.iter().map(|((k, w), vs)| ((*k, w2(w)), vs.clone())).collect())
     }))
 }
 
@@ -293,6 +442,13 @@ fn all_representable(ts: impl Iterator<Item = u64>, size: u64, off: u64) -> bool
 }
 
 fn sorted(mut v: Vec<i64>) -> Vec<i64> { v.sort(); v }
+
+/// the reference grouping (i128 arithmetic): window -> sorted values; `None` when some event has no representable window
+fn ref_groups(rows: &[Row], size: u64, off: u64) -> Option<Vec<WGroup>> {
+    let mut m: BTreeMap<W2, Vec<i64>> = BTreeMap::new();
+    for (t, v) in rows { m.entry(ref_window(*t, size, off)?).or_default().push(*v); }
+    Some(m.into_iter().map(|(w, vs)| (w, sorted(vs))).collect())
+}
 
 /// answer string of a run that did not return rows
 fn fail_ans<T>(o: &Out<T>) -> String { match o { Out::Err(_) => "ERR collect".into(), _ => "PANIC".into() } }
@@ -312,17 +468,40 @@ fn fail_oracle<T>(cx: &mut Ctx, i: usize, op: &str, o: &Out<T>, repr: bool, size
     }
 }
 
-/// unkeyed: key_by_window + group_by_window in `mode`; returns the order-insensitive canonical grouped
-/// answer (used only by the seq-vs-par oracle)
-fn one_unkeyed(cx: &mut Ctx, pools: &mut Pools, rows: &[Row], size: u64, off: u64, mode: Mode, eff: usize, src: Src, seq_ref: Option<&str>) -> String {
+/// group contents come out in input order? (NOT part of the property, NOT part of any answer: a run-quality observation
+/// that tells whether the Lean model's stronger "in input order" clause still describes the code)
+fn note_group_order(cx: &mut Ctx, in_order: bool) {
+    cx.count(if in_order { "group-order:input-order" } else { "group-order:other-order" });
+}
+
+fn groups_ans(g: &[WGroup]) -> String {
+    format!("OK {}", join_or_dash(g.iter().map(|((s, e), vs)| format!("{s}-{e}:{}", dots(vs))).collect()))
+}
+/// groups sorted by window, contents sorted
+fn canon_groups(out: &[WGroup]) -> Vec<WGroup> {
+    let mut c: Vec<WGroup> = out.iter().map(|(w, vs)| (*w, sorted(vs.clone()))).collect();
+    c.sort();
+    c
+}
+
+/// canonical answers of one input in one mode, for the seq-vs-par oracle
+#[derive(Default, Clone, PartialEq, Eq)]
+struct Canon { gbw: String, extras: Vec<(String, String)> }
+
+/// unkeyed: key_by_window + group_by_window (+ the derived ops when `extras`) in `mode`
+fn one_unkeyed(cx: &mut Ctx, pools: &mut Pools, rows: &[Row], size: u64, off: u64, mode: Mode, src: Src, extras: bool, seq_ref: Option<&Canon>) -> Canon {
     let repr = all_representable(rows.iter().map(|r| r.0), size, off);
+    let req = |op: &str| format!("WGROUP {op} {size} {off} {} {} {}", mode.enc(), src.enc(), enc_rows(rows));
+    let nt = |ok: bool| rows.len() >= 2 && ok;
+    let mut canon = Canon::default();
     // ---- key_by_window
     let r = real_kbw(pools, rows, size, off, mode, src);
+    if ck_environment_failure(cx, mode, &r) { return canon; }
     let ans = match &r {
         Out::Ok(out) => format!("OK {}", join_or_dash(out.iter().map(|((s, e), v)| format!("{s}-{e}:{v}")).collect())),
         o => fail_ans(o),
     };
-    let i = cx.case(format!("WGROUP kbw {size} {off} {} {} {}", mode.enc(eff), src.enc(), enc_rows(rows)), ans, rows.len() >= 2 && r.is_ok());
+    let i = cx.case(req("kbw"), ans, nt(r.is_ok()));
     cx.count(&format!("wgroup:kbw:{}", r.tag()));
     fail_oracle(cx, i, "kbw", &r, repr, size);
     if let Out::Ok(out) = &r {
@@ -342,27 +521,19 @@ fn one_unkeyed(cx: &mut Ctx, pools: &mut Pools, rows: &[Row], size: u64, off: u6
         }
     }
     // ---- group_by_window
-    let r = real_gbw(pools, rows, size, off, mode, src);
+    let r = real_groups(pools, UOp::Gbw, rows, size, off, mode, src);
+    if ck_environment_failure(cx, mode, &r) { return canon; }
     cx.count(&format!("wgroup:src={}", src.enc()));
-    // correspondence answer: groups sorted by window, contents exactly as produced; canonical: contents sorted too
-    let (ans, canon) = match &r {
-        Out::Ok(out) => {
-            let mut g: Vec<WGroup> = out.clone();
-            g.sort_by_key(|x| x.0);
-            let a = format!("OK {}", join_or_dash(g.iter().map(|((s, e), vs)| format!("{s}-{e}:{}", dots(vs))).collect()));
-            let mut c: Vec<WGroup> = out.iter().map(|(w, vs)| (*w, sorted(vs.clone()))).collect();
-            c.sort();
-            (a, format!("OK {}", join_or_dash(c.iter().map(|((s, e), vs)| format!("{s}-{e}:{}", dots(vs))).collect())))
-        }
-        o => (fail_ans(o), fail_ans(o)),
-    };
-    let i = cx.case(format!("WGROUP gbw {size} {off} {} {} {}", mode.enc(eff), src.enc(), enc_rows(rows)), ans, rows.len() >= 2 && r.is_ok());
+    let ans = match &r { Out::Ok(out) => groups_ans(&canon_groups(out)), o => fail_ans(o) };
+    canon.gbw = ans.clone();
+    let i = cx.case(req("gbw"), ans, nt(r.is_ok()));
     cx.count(&format!("wgroup:gbw:{}", r.tag()));
     fail_oracle(cx, i, "gbw", &r, repr, size);
     if let Out::Ok(out) = &r {
         let mut seen = std::collections::BTreeSet::new();
         let mut total = 0usize;
         let mut complete = true; // false = an earlier clause already failed and the walk stopped
+        let mut in_order = true;
         for (w, vs) in out {
             total += vs.len();
             complete = false;
@@ -378,7 +549,9 @@ fn one_unkeyed(cx: &mut Ctx, pools: &mut Pools, rows: &[Row], size: u64, off: u6
                 cx.oracle_fail(i, "gbw-window-wrong", format!("group window [{},{}) is not offset+k*size long size", w.0, w.1));
                 break;
             }
-            let want = sorted(rows.iter().filter(|(t, _)| w.0 <= *t && *t < w.1).map(|x| x.1).collect());
+            let want_in_order: Vec<i64> = rows.iter().filter(|(t, _)| w.0 <= *t && *t < w.1).map(|x| x.1).collect();
+            if *vs != want_in_order { in_order = false; }
+            let want = sorted(want_in_order);
             if sorted(vs.clone()) != want {
                 cx.oracle_fail(i, "gbw-group-content", format!("window [{},{}): got {:?}, elements with ts inside: {:?}", w.0, w.1, sorted(vs.clone()), want));
                 break;
@@ -388,25 +561,92 @@ fn one_unkeyed(cx: &mut Ctx, pools: &mut Pools, rows: &[Row], size: u64, off: u6
         if complete && total != rows.len() {
             cx.oracle_fail(i, "gbw-lost-or-duplicated", format!("{} elements in, {} in groups", rows.len(), total));
         }
+        if complete && !out.is_empty() { note_group_order(cx, in_order); }
     }
     if let Some(s) = seq_ref {
-        if s != canon {
-            cx.oracle_fail(i, "gbw-par-differs-from-seq", format!("seq: {s}  par: {canon}"));
+        if s.gbw != canon.gbw { cx.oracle_fail(i, "gbw-par-differs-from-seq", format!("seq: {}  {}: {}", s.gbw, mode.enc(), canon.gbw)); }
+    }
+    if !extras || mode.is_ck() { return canon; }
+    // ---- derived ops: the grouping observed through a following op / the lifted combiner / the sorted collectors / a join
+    let want = if size >= 1 { ref_groups(rows, size, off) } else { None };
+    for op in [UOp::Gbwv, UOp::Gbws] {
+        let r = real_groups(pools, op, rows, size, off, mode, src);
+        let ans = match &r {
+            Out::Ok(out) if op == UOp::Gbws => groups_ans(&out.iter().map(|(w, vs)| (*w, sorted(vs.clone()))).collect::<Vec<_>>()), // rows as PRODUCED
+            Out::Ok(out) => groups_ans(&canon_groups(out)),
+            o => fail_ans(o),
+        };
+        let i = cx.case(req(op.enc()), ans.clone(), nt(r.is_ok()));
+        cx.count(&format!("wgroup:{}:{}", op.enc(), r.tag()));
+        fail_oracle(cx, i, op.enc(), &r, repr, size);
+        if let (Out::Ok(out), Some(want)) = (&r, &want) {
+            if canon_groups(out) != *want {
+                cx.oracle_fail(i, &format!("{}-groups-wrong", op.enc()), format!("got {}, reference grouping {}", groups_ans(&canon_groups(out)), groups_ans(want)));
+            } else if op == UOp::Gbws && !out.windows(2).all(|p| p[0].0 < p[1].0) {
+                cx.oracle_fail(i, "gbws-not-sorted-by-window", format!("sorted collector returned {}", groups_ans(out)));
+            }
+        }
+        canon.extras.push((op.enc().to_string(), match &r { Out::Ok(out) => groups_ans(&canon_groups(out)), o => fail_ans(o) }));
+    }
+    {
+        let r = real_gbwl(pools, rows, size, off, mode, src);
+        let ans = match &r {
+            Out::Ok(out) => { let mut o = out.clone(); o.sort(); format!("OK {}", join_or_dash(o.iter().map(|((s, e), v)| format!("{s}-{e}:{v}")).collect())) }
+            o => fail_ans(o),
+        };
+        let i = cx.case(req("gbwl"), ans.clone(), nt(r.is_ok()));
+        cx.count(&format!("wgroup:gbwl:{}", r.tag()));
+        fail_oracle(cx, i, "gbwl", &r, repr, size);
+        if let (Out::Ok(out), Some(want)) = (&r, &want) {
+            let mut o = out.clone(); o.sort();
+            let w: Vec<WRow> = want.iter().map(|(w, vs)| (*w, vs.iter().sum())).collect();
+            if o != w { cx.oracle_fail(i, "gbwl-sums-wrong", format!("got {o:?}, per-window sums of the reference grouping {w:?}")); }
+        }
+        canon.extras.push(("gbwl".into(), ans));
+    }
+    {
+        let r = real_gbwj(pools, rows, size, off, mode, src);
+        let ans = match &r {
+            Out::Ok(out) => {
+                let mut o: Vec<(W2, (Vec<i64>, Vec<i64>))> = out.iter().map(|(w, (a, b))| (*w, (sorted(a.clone()), sorted(b.clone())))).collect();
+                o.sort();
+                format!("OK {}", join_or_dash(o.iter().map(|((s, e), (a, b))| format!("{s}-{e}:{}|{}", dots(a), dots(b))).collect()))
+            }
+            o => fail_ans(o),
+        };
+        let i = cx.case(req("gbwj"), ans.clone(), nt(r.is_ok()));
+        cx.count(&format!("wgroup:gbwj:{}", r.tag()));
+        fail_oracle(cx, i, "gbwj", &r, repr, size);
+        if let (Out::Ok(_), Some(want)) = (&r, &want) {
+            let w = format!("OK {}", join_or_dash(want.iter().map(|((s, e), vs)| format!("{s}-{e}:{}|{}", dots(vs), dots(vs))).collect()));
+            if ans != w { cx.oracle_fail(i, "gbwj-join-wrong", format!("got {ans}, reference grouping joined with itself {w}")); }
+        }
+        canon.extras.push(("gbwj".into(), ans));
+    }
+    if let Some(s) = seq_ref {
+        for ((op, a), (_, b)) in canon.extras.iter().zip(s.extras.iter()) {
+            if a != b { cx.oracle_fail(cx.reqs.len() - 1, &format!("{op}-par-differs-from-seq"), format!("seq: {b}  {}: {a}", mode.enc())); }
         }
     }
     canon
 }
 
-fn one_keyed(cx: &mut Ctx, pools: &mut Pools, rows: &[KRow], size: u64, off: u64, mode: Mode, eff: usize, seq_ref: Option<&str>) -> String {
+fn kgroups_ans(g: &[KWGroup]) -> String {
+    format!("OK {}", join_or_dash(g.iter().map(|((k, (s, e)), vs)| format!("{k}@{s}-{e}:{}", dots(vs))).collect()))
+}
+
+fn one_keyed(cx: &mut Ctx, pools: &mut Pools, rows: &[KRow], size: u64, off: u64, mode: Mode, src: KSrc, seq_ref: Option<&str>) -> String {
     let repr = all_representable(rows.iter().map(|r| r.1), size, off);
     // ---- keyed key_by_window
-    let r = real_kkbw(pools, rows, size, off, mode);
+    let r = real_kkbw(pools, rows, size, off, mode, src);
+    if ck_environment_failure(cx, mode, &r) { return seq_ref.unwrap_or("").to_string(); }
     let ans = match &r {
         Out::Ok(out) => format!("OK {}", join_or_dash(out.iter().map(|((k, (s, e)), v)| format!("{k}@{s}-{e}:{v}")).collect())),
         o => fail_ans(o),
     };
-    let i = cx.case(format!("WGROUP kkbw {size} {off} {} d {}", mode.enc(eff), enc_krows(rows)), ans, rows.len() >= 2 && r.is_ok());
+    let i = cx.case(format!("WGROUP kkbw {size} {off} {} {} {}", mode.enc(), src.enc(), enc_krows(rows)), ans, rows.len() >= 2 && r.is_ok());
     cx.count(&format!("wgroup:kkbw:{}", r.tag()));
+    cx.count(&format!("wgroup:ksrc={}", src.enc()));
     fail_oracle(cx, i, "kkbw", &r, repr, size);
     if let Out::Ok(out) = &r {
         if out.len() != rows.len() {
@@ -425,25 +665,24 @@ fn one_keyed(cx: &mut Ctx, pools: &mut Pools, rows: &[KRow], size: u64, off: u64
         }
     }
     // ---- group_by_key_and_window
-    let r = real_gbkw(pools, rows, size, off, mode);
-    let (ans, canon) = match &r {
+    let r = real_gbkw(pools, rows, size, off, mode, src);
+    if ck_environment_failure(cx, mode, &r) { return seq_ref.unwrap_or("").to_string(); }
+    let canon = match &r {
         Out::Ok(out) => {
-            let mut g: Vec<KWGroup> = out.clone();
-            g.sort_by_key(|x| x.0);
-            let a = format!("OK {}", join_or_dash(g.iter().map(|((k, (s, e)), vs)| format!("{k}@{s}-{e}:{}", dots(vs))).collect()));
             let mut c: Vec<KWGroup> = out.iter().map(|(kw, vs)| (*kw, sorted(vs.clone()))).collect();
             c.sort();
-            (a, format!("OK {}", join_or_dash(c.iter().map(|((k, (s, e)), vs)| format!("{k}@{s}-{e}:{}", dots(vs))).collect())))
+            kgroups_ans(&c)
         }
-        o => (fail_ans(o), fail_ans(o)),
+        o => fail_ans(o),
     };
-    let i = cx.case(format!("WGROUP gbkw {size} {off} {} d {}", mode.enc(eff), enc_krows(rows)), ans, rows.len() >= 2 && r.is_ok());
+    let i = cx.case(format!("WGROUP gbkw {size} {off} {} {} {}", mode.enc(), src.enc(), enc_krows(rows)), canon.clone(), rows.len() >= 2 && r.is_ok());
     cx.count(&format!("wgroup:gbkw:{}", r.tag()));
     fail_oracle(cx, i, "gbkw", &r, repr, size);
     if let Out::Ok(out) = &r {
         let mut seen = std::collections::BTreeSet::new();
         let mut total = 0usize;
         let mut complete = true;
+        let mut in_order = true;
         for ((k, w), vs) in out {
             total += vs.len();
             complete = false;
@@ -459,7 +698,9 @@ fn one_keyed(cx: &mut Ctx, pools: &mut Pools, rows: &[KRow], size: u64, off: u64
                 cx.oracle_fail(i, "gbkw-window-wrong", format!("group window [{},{}) is not offset+k*size long size", w.0, w.1));
                 break;
             }
-            let want = sorted(rows.iter().filter(|(k0, t, _)| k0 == k && w.0 <= *t && *t < w.1).map(|x| x.2).collect());
+            let want_in_order: Vec<i64> = rows.iter().filter(|(k0, t, _)| k0 == k && w.0 <= *t && *t < w.1).map(|x| x.2).collect();
+            if *vs != want_in_order { in_order = false; }
+            let want = sorted(want_in_order);
             if sorted(vs.clone()) != want {
                 cx.oracle_fail(i, "gbkw-group-content", format!("key {k} window [{},{}): got {:?}, elements of that key with ts inside: {:?}", w.0, w.1, sorted(vs.clone()), want));
                 break;
@@ -469,36 +710,79 @@ fn one_keyed(cx: &mut Ctx, pools: &mut Pools, rows: &[KRow], size: u64, off: u64
         if complete && total != rows.len() {
             cx.oracle_fail(i, "gbkw-lost-or-duplicated", format!("{} elements in, {} in groups", rows.len(), total));
         }
+        if complete && !out.is_empty() { note_group_order(cx, in_order); }
     }
     if let Some(s) = seq_ref {
-        if s != canon { cx.oracle_fail(i, "gbkw-par-differs-from-seq", format!("seq: {s}  par: {canon}")); }
+        if s != canon { cx.oracle_fail(i, "gbkw-par-differs-from-seq", format!("seq: {s}  {}: {canon}", mode.enc())); }
     }
     canon
 }
 
-/// one input through seq and several (threads, partitions) pairs, unkeyed and keyed
-fn wgroup_all_modes(cx: &mut Ctx, pools: &mut Pools, krows: &[KRow], size: u64, off: u64, pars: &[(usize, Option<usize>)]) {
-    let rows: Vec<Row> = krows.iter().map(|(_, t, v)| (*t, *v)).collect();
-    // the way the timestamped collection is built is part of the case (drawn from the one PRNG)
-    let src = *cx.rng.pick(&[Src::D, Src::D, Src::T, Src::A]);
-    let eff = if pars.iter().any(|(_, p)| p.is_none()) { effective_default_partitions(&rows) } else { 0 };
-    let s_un = one_unkeyed(cx, pools, &rows, size, off, Mode::Seq, eff, src, None);
-    let s_k = one_keyed(cx, pools, krows, size, off, Mode::Seq, eff, None);
-    for (t, p) in pars {
-        one_unkeyed(cx, pools, &rows, size, off, Mode::Par(*t, *p), eff, src, Some(&s_un));
-        one_keyed(cx, pools, krows, size, off, Mode::Par(*t, *p), eff, Some(&s_k));
-        cx.count(&format!("wgroup:partitions={}", match p {
-            None => format!("None(eff={eff})"),
-            Some(0) => "Some(0)".to_string(),
-            Some(p) if *p > krows.len() => ">len".to_string(),
-            Some(p) if *p == krows.len() => "=len".to_string(),
-            Some(p) if *p >= 9 => "9+".to_string(),
-            Some(p) => p.to_string(),
-        }));
-        cx.count(&format!("wgroup:threads={t}"));
+/// a checkpointed run that returned `Err` because of the checkpoint STORE (no scratch directory, directory not writable,
+/// disk full): an environment condition and the subject of C11 / C12 — never a C13 verdict. Such a run is skipped
+/// (no case, no oracle) and counted; everything else (`Ok` rows, a panic, any other `Err`) is judged as usual.
+fn ck_environment_failure<T>(cx: &mut Ctx, mode: Mode, o: &Out<T>) -> bool {
+    if let (true, Out::Err(m)) = (mode.is_ck(), o) {
+        if m == NO_SCRATCH || m.to_lowercase().contains("checkpoint") {
+            if !cx.stats.contains_key("wgroup:checkpointed-run-skipped(checkpoint-store-error)") {
+                cx.notes.push(format!("at least one checkpointed run (modes ckseq / ckpar) was skipped because the checkpoint store failed ({m}): an environment condition, not a verdict"));
+            }
+            cx.count("wgroup:checkpointed-run-skipped(checkpoint-store-error)");
+            return true;
+        }
     }
-    cx.count(&format!("wgroup:len={}", match krows.len() { 0 => "0", 1 => "1", 2..=4 => "2-4", 5..=16 => "5-16", _ => ">16" }));
-    cx.count(if size >= 1 << 40 { "wgroup:size>=2^40" } else { "wgroup:size<2^40" });
+    false
+}
+
+/// one input through seq and several modes, unkeyed and keyed; `extras` = also the derived ops and a checkpointed run
+fn wgroup_all_modes(cx: &mut Ctx, pools: &mut Pools, krows: &[KRow], size: u64, off: u64, pars: &[(usize, Option<usize>)], extras: bool) {
+    let rows: Vec<Row> = krows.iter().map(|(_, t, v)| (*t, *v)).collect();
+    // the way the collections are built is part of the case (drawn from the one PRNG)
+    let src = *cx.rng.pick(&[Src::D, Src::D, Src::T, Src::A]);
+    let ksrc = *cx.rng.pick(&[KSrc::D, KSrc::D, KSrc::K]);
+    let eff = if pars.iter().any(|(_, p)| p.is_none()) { effective_default_partitions(&rows) } else { None };
+    let s_un = one_unkeyed(cx, pools, &rows, size, off, Mode::Seq, src, extras, None);
+    let s_k = one_keyed(cx, pools, krows, size, off, Mode::Seq, ksrc, None);
+    let mut modes: Vec<Mode> = pars.iter().map(|(t, p)| Mode::Par(*t, *p)).collect();
+    if extras {
+        cx.count("wgroup:with-derived-ops");
+        modes.push(Mode::CkSeq);
+        if let Some((t, p)) = pars.first() { modes.push(Mode::CkPar(*t, p.unwrap_or(3))); }
+    }
+    for m in modes {
+        one_unkeyed(cx, pools, &rows, size, off, m, src, extras, Some(&s_un));
+        one_keyed(cx, pools, krows, size, off, m, ksrc, Some(&s_k));
+        match m {
+            Mode::Par(t, p) => {
+                cx.count(&format!("wgroup:partitions={}", match p {
+                    None => match eff { Some(e) => format!("None(eff={e})"), None => "None(eff=unknown)".to_string() },
+                    Some(0) => "Some(0)".to_string(),
+                    Some(p) if p > krows.len() => ">len".to_string(),
+                    Some(p) if p == krows.len() => "=len".to_string(),
+                    Some(p) if p >= 65 => "65+".to_string(),
+                    Some(p) if p >= 9 => "9-64".to_string(),
+                    Some(p) => p.to_string(),
+                }));
+                cx.count(&format!("wgroup:threads={t}"));
+                // rows of the largest partition `split` makes (ceil(len / n) after the clamp): the GBK local stage sees that many
+                let n = p.or(eff).unwrap_or(1).max(1).min(krows.len().max(1));
+                let chunk = krows.len().div_ceil(n);
+                cx.count(&format!("wgroup:largest-partition={}", match chunk { 0..=1 => "0-1", 2..=8 => "2-8", 9..=63 => "9-63", _ => "64+" }));
+            }
+            Mode::CkSeq => cx.count("wgroup:mode=ckseq"),
+            Mode::CkPar(..) => cx.count("wgroup:mode=ckpar"),
+            Mode::Seq => {}
+        }
+    }
+    cx.count(&format!("wgroup:len={}", match krows.len() { 0 => "0", 1 => "1", 2..=4 => "2-4", 5..=16 => "5-16", 17..=63 => "17-63", 64..=127 => "64-127", _ => "128+" }));
+    cx.count(if size == 0 { "wgroup:size=0" } else if size >= 1 << 40 { "wgroup:size>=2^40" } else { "wgroup:size<2^40" });
+    if size >= 1 {
+        if let Some(g) = ref_groups(&rows, size, off) {
+            let big = g.iter().map(|x| x.1.len()).max().unwrap_or(0);
+            cx.count(&format!("wgroup:largest-group={}", match big { 0 => "0", 1 => "1", 2..=8 => "2-8", 9..=63 => "9-63", 64..=127 => "64-127", _ => "128+" }));
+            cx.count(&format!("wgroup:windows={}", match g.len() { 0 => "0", 1 => "1", 2..=8 => "2-8", 9..=49 => "9-49", _ => "50+" }));
+        }
+    }
 }
 
 fn all_seqs<T: Clone>(alpha: &[T], max_len: usize) -> Vec<Vec<T>> {
@@ -522,6 +806,7 @@ fn all_seqs<T: Clone>(alpha: &[T], max_len: usize) -> Vec<Vec<T>> {
 pub fn run(cx: &mut Ctx) {
     let mut pools = Pools::new();
     const MAX: u64 = u64::MAX;
+    source_copy_status(cx);
 
     // ---------------- (1) corpus: design witnesses / minimised past failures
     for &(ts, size, off) in &[
@@ -532,23 +817,42 @@ pub fn run(cx: &mut Ctx) {
         (MAX - 1, 1, 0), (MAX - 10, 10, 5), (MAX - 10, 10, 6), (MAX, MAX, 0), (MAX - 1, MAX, 0), (MAX - 1, MAX, MAX - 1),
         (5, 0, 0), (5, 0, 3), // size 0
         (100, 10, MAX), (MAX - 3, 10, MAX),
+        ((1 << 40) + 5, 1 << 33, 3), ((1 << 63) + 12345, 1 << 62, 0), // power-of-two sizes beyond 2^32 (audit D, M3)
     ] {
         one_tumble(cx, ts, size, off, "corpus");
     }
     for &(ts, size, off) in &[
         (7u64, 10u64, 25u64), // checked legacy panics, release legacy returns [2^64-1, 9), current returns [5,15) in both builds
         (3, 10, 5), (27, 10, 5), (0, 10, 10), (9, 10, 10), (MAX, 1, 0), (MAX - 1, 1, 0), (MAX - 10, 10, 6), (MAX - 1, MAX, MAX - 1),
-        (5, 0, 0), (5, 0, 3), (100, 10, MAX), (MAX - 3, 10, MAX), (1 << 63, 3, 1 << 62),
+        (5, 0, 0), (5, 0, 3), (100, 10, MAX), (MAX - 3, 10, MAX), (1 << 63, 3, 1 << 62), ((1 << 40) + 5, 1 << 33, 3),
     ] {
         one_tumble_variants(cx, ts, size, off);
     }
-    wgroup_all_modes(cx, &mut pools, &[(1, 7, 70), (1, 27, 71), (2, 12, 72), (1, 8, 73)], 10, 25, &[(2, Some(2)), (2, Some(4)), (2, None), (2, Some(0))]);
-    wgroup_all_modes(cx, &mut pools, &[(1, 1_000, 1), (1, 9_000, 2), (2, 11_000, 3)], 10_000, 0, &[(2, Some(2)), (1, None)]);
-    wgroup_all_modes(cx, &mut pools, &[(1, 3, 1), (1, 30, 2)], 10, 5, &[(2, Some(2)), (2, Some(0))]); // first row has no window → PANIC
+    for &(s, e) in &[(0u64, 0u64), (0, 1), (1, 0), (5, 15), (15, 5), (MAX, MAX), (MAX, 0), (0, MAX), (MAX - 1, MAX), (MAX, MAX - 1)] {
+        one_wnew(cx, s, e);
+    }
+    for op in ["kbw", "gbw", "gbwv", "gbwl", "gbws"] { for src in ["d", "t", "a"] { one_wplan(cx, op, src); } }
+    for op in ["kkbw", "gbkw"] { for src in ["d", "k"] { one_wplan(cx, op, src); } }
+    wgroup_all_modes(cx, &mut pools, &[(1, 7, 70), (1, 27, 71), (2, 12, 72), (1, 8, 73)], 10, 25, &[(2, Some(2)), (2, Some(4)), (2, None), (2, Some(0))], true);
+    wgroup_all_modes(cx, &mut pools, &[(1, 1_000, 1), (1, 9_000, 2), (2, 11_000, 3)], 10_000, 0, &[(2, Some(2)), (1, None)], true);
+    wgroup_all_modes(cx, &mut pools, &[(1, 3, 1), (1, 30, 2)], 10, 5, &[(2, Some(2)), (2, Some(0))], true); // first row has no window → PANIC
     // 64-bit magnitudes: huge window size, events on both sides of a boundary / below the phase / at the top
-    wgroup_all_modes(cx, &mut pools, &[(1, 1 << 63, 1), (2, (1 << 63) - 1, 2), (1, 5, 3), (1, (1 << 63) + 7, 1)], 1 << 63, 0, &[(2, Some(3)), (2, None)]);
-    wgroup_all_modes(cx, &mut pools, &[(1, 1 << 62, 1), (1, 99, 2)], 1 << 62, 100, &[(2, Some(2))]); // 99 < off % size → PANIC
-    wgroup_all_modes(cx, &mut pools, &[(1, MAX - 1, 1), (1, 3, 2)], MAX / 2, 3, &[(2, Some(2))]);     // end beyond 2^64 → PANIC
+    wgroup_all_modes(cx, &mut pools, &[(1, 1 << 63, 1), (2, (1 << 63) - 1, 2), (1, 5, 3), (1, (1 << 63) + 7, 1)], 1 << 63, 0, &[(2, Some(3)), (2, None)], true);
+    wgroup_all_modes(cx, &mut pools, &[(1, 1 << 62, 1), (1, 99, 2)], 1 << 62, 100, &[(2, Some(2))], false); // 99 < off % size → PANIC
+    wgroup_all_modes(cx, &mut pools, &[(1, MAX - 1, 1), (1, 3, 2)], MAX / 2, 3, &[(2, Some(2))], false);     // end beyond 2^64 → PANIC
+    // size = 0 (outside the property's quantifier, documented as user-reachable in tumbling.rs): every event panics
+    // (`debug_assert!(size_ms > 0)` / `% 0`), an EMPTY input runs no closure and returns no rows — in every mode
+    wgroup_all_modes(cx, &mut pools, &[], 0, 0, &[(2, Some(2)), (2, None), (2, Some(0))], true);
+    wgroup_all_modes(cx, &mut pools, &[(1, 5, 1), (2, 6, 2)], 0, 3, &[(2, Some(2)), (2, None)], true);
+    wgroup_all_modes(cx, &mut pools, &[], 10, 3, &[(2, Some(2)), (2, None), (2, Some(0))], true);
+    // shape witnesses (audit D, M1/M2): 200 rows of ONE key in ONE window (a group of 200, a partition of 200 / 100 / 2 / 1 rows,
+    // up to 200 partitions); 150 rows over 150 windows of size 1 with 128 partitions; 130 rows, 3 keys, 65 partitions
+    let one_group: Vec<KRow> = (0..200).map(|j| (1i64, 1_000 + (j as u64 * 7) % 10, j as i64)).collect();
+    wgroup_all_modes(cx, &mut pools, &one_group, 10, 0, &[(4, Some(1)), (4, Some(2)), (4, Some(100)), (8, Some(200)), (4, None)], true);
+    let many_windows: Vec<KRow> = (0..150).map(|j| ((j % 2) as i64, 5_000 + ((j as u64 * 37) % 150), (j % 5) as i64)).collect();
+    wgroup_all_modes(cx, &mut pools, &many_windows, 1, 0, &[(4, Some(128)), (8, Some(75)), (2, Some(3))], true);
+    let three_keys: Vec<KRow> = (0..130).map(|j| ((j % 3) as i64, 40 + ((j as u64 * 11) % 60), (j % 4) as i64 - 1)).collect();
+    wgroup_all_modes(cx, &mut pools, &three_keys, 20, 7, &[(4, Some(65)), (4, Some(64)), (2, Some(2))], true);
 
     // ---------------- (2) small-scope exhaustive
     let (tmax, smax) = (cx.budget(40, 64) as u64, cx.budget(12, 16) as u64);
@@ -573,6 +877,28 @@ pub fn run(cx: &mut Ctx) {
         }
     }
     cx.exhaustive_blocks.push(format!("TUMBLE-WRAP / TUMBLE-LEGACY / TUMBLE-LEGACY-WRAP: all ts, off in 0..={tmax}, size in 0..={smax} ({n} triples)"));
+    // every power-of-two size 2^k, k = 0..=63, and its neighbours 2^k ± 1, with timestamps around multiples of the size
+    // (a mask / shift "fast path" for power-of-two sizes is wrong exactly here)
+    let mut n = 0u64;
+    for k in 0..64u32 {
+        let p = 1u64 << k;
+        for size in [p.wrapping_sub(1), p, p.wrapping_add(1)] {
+            if size == 0 { continue; }
+            let fit = MAX / size; // whole windows below 2^64
+            for mult in [0u64, 1, 2, 3, fit / 2, fit.saturating_sub(1)] {
+                let b = mult.saturating_mul(size);
+                for off in [0u64, 1, size - 1, size, p / 2 + 1] {
+                    for d in [0i64, 1, -1] {
+                        let ts = if d >= 0 { b.saturating_add(off % size).saturating_add(d as u64) } else { b.saturating_add(off % size).saturating_sub(1) };
+                        one_tumble(cx, ts, size, off, "pow2");
+                        if k % 4 == 1 { one_tumble_variants(cx, ts, size, off); }
+                        n += 1;
+                    }
+                }
+            }
+        }
+    }
+    cx.exhaustive_blocks.push(format!("TUMBLE: every size 2^k-1, 2^k, 2^k+1 (k = 0..=63) x window index in {{0,1,2,3,mid,last}} x off in {{0,1,size-1,size,2^(k-1)+1}} x ts on the boundary, +1, -1 ({n} triples)"));
     // Window Eq/Ord/Hash: all pairs of windows over 4 field values
     let vals = [0u64, 1, 10, MAX];
     let mut n = 0u64;
@@ -606,11 +932,21 @@ pub fn run(cx: &mut Ctx) {
     for s in &seqs {
         let krows: Vec<KRow> = s.iter().enumerate().map(|(j, (k, t))| (*k, *t, (j as i64) % 2)).collect();
         for &(size, off) in &[(5u64, 0u64), (5, 2), (10, 7), (5, 25)] {
-            wgroup_all_modes(cx, &mut pools, &krows, size, off, &pars);
+            wgroup_all_modes(cx, &mut pools, &krows, size, off, &pars, false);
             n += 1;
         }
     }
     cx.exhaustive_blocks.push(format!("WGROUP: all keyed event sequences of length <= {l} over 5 (key,ts) symbols x (size,off) in {{(5,0),(5,2),(10,7),(5,25)}} x seq + partitions Some(0)..=Some({}) and None ({n} inputs, 4 ops each)", l + 1));
+    // the derived ops / checkpointed runs on every sequence of length <= 2 (one partition count each)
+    let mut n = 0u64;
+    for s in all_seqs(&alpha, 2) {
+        let krows: Vec<KRow> = s.iter().enumerate().map(|(j, (k, t))| (*k, *t, (j as i64) % 2)).collect();
+        for &(size, off) in &[(5u64, 2u64), (10, 7)] {
+            wgroup_all_modes(cx, &mut pools, &krows, size, off, &[(2, Some(2))], true);
+            n += 1;
+        }
+    }
+    cx.exhaustive_blocks.push(format!("WGROUP derived ops (gbwv, gbws, gbwl, gbwj) and checkpointed runs (ckseq, ckpar): all sequences of length <= 2 x (size,off) in {{(5,2),(10,7)}} x seq, par:2:2 ({n} inputs)"));
 
     // ---------------- (3) random
     let rounds = cx.budget(60_000, 1_500_000);
@@ -628,10 +964,11 @@ pub fn run(cx: &mut Ctx) {
         let a = (cx.rng.next_u64() >> cx.rng.below(64), cx.rng.next_u64() >> cx.rng.below(64));
         let b = match cx.rng.below(4) { 0 => a, 1 => (a.0, cx.rng.next_u64() >> cx.rng.below(64)), 2 => (cx.rng.next_u64() >> cx.rng.below(64), a.1), _ => (a.1, a.0) };
         one_wcmp(cx, a, b);
+        if cx.rng.chance(1, 4) { one_wnew(cx, a.0, a.1); }
     }
     let rounds = cx.budget(1200, 20_000);
     for _ in 0..rounds {
-        let (krows, size, off) = gen_events(cx);
+        let (krows, size, off) = gen_events(cx, false);
         let len = krows.len();
         let mut cand = vec![Some(1usize), Some(2), Some(3), Some(len.saturating_sub(1).max(1)), Some(len.max(1)), Some(len + 1), Some(7), Some(64), Some(0), None];
         let np = cx.budget(2, 3);
@@ -642,7 +979,35 @@ pub fn run(cx: &mut Ctx) {
             let t = *cx.rng.pick(&[1usize, 2, 4, 8]);
             pars.push((t, p));
         }
-        wgroup_all_modes(cx, &mut pools, &krows, size, off, &pars);
+        let extras = cx.rng.chance(1, 6);
+        wgroup_all_modes(cx, &mut pools, &krows, size, off, &pars, extras);
+    }
+    // large event sets: 64..400 rows, partitions that give BOTH partitions of >= 64 rows and > 64 partitions
+    let rounds = cx.budget(60, 1_500);
+    for _ in 0..rounds {
+        let (krows, size, off) = gen_events(cx, true);
+        let len = krows.len();
+        let mut cand = vec![Some(1usize), Some(2), Some(3), Some(len / 2), Some(64), Some(65), Some(128), Some(200), Some(len), None];
+        let mut pars = vec![];
+        for _ in 0..2 {
+            let j = cx.rng.below(cand.len());
+            let p = cand.remove(j);
+            let t = *cx.rng.pick(&[2usize, 4, 8]);
+            pars.push((t, p));
+        }
+        let extras = cx.rng.chance(1, 4);
+        wgroup_all_modes(cx, &mut pools, &krows, size, off, &pars, extras);
+    }
+    if pools.fallbacks > 0 {
+        cx.count_n("wgroup:dedicated-pool-unavailable(global-pool-used)", pools.fallbacks);
+        cx.notes.push(format!("{} parallel runs used rayon's global pool because a dedicated pool could not be built (thread spawn refused); results are judged as usual", pools.fallbacks));
+    }
+    let other = cx.stats.get("group-order:other-order").copied().unwrap_or(0);
+    let inord = cx.stats.get("group-order:input-order").copied().unwrap_or(0);
+    if other > 0 {
+        cx.notes.push(format!("group contents were NOT in input order in {other} of {} grouped runs: allowed by the property (the answers compare group contents as multisets), but the Lean model's stronger clause `groupOf w gs = (filter …).map value` (list equality, input order) no longer describes the code", other + inord));
+    } else {
+        cx.notes.push(format!("group contents were in input order in all {inord} grouped runs (observation only; the order inside a group is neither in the property nor in the compared answers)"));
     }
 }
 
@@ -651,8 +1016,14 @@ fn gen_tumble(cx: &mut Ctx) -> (u64, u64, u64, &'static str) {
     let small = |cx: &mut Ctx| -> u64 {
         match cx.rng.below(4) { 0 => 1 + cx.rng.below(16) as u64, 1 => 1 + cx.rng.below(100_000) as u64, 2 => 1 + (cx.rng.next_u64() >> 32), _ => 1 + cx.rng.next_u64() % 1000 }
     };
-    match cx.rng.below(10) {
+    match cx.rng.below(11) {
         0 => (cx.rng.next_u64(), cx.rng.next_u64(), cx.rng.next_u64(), "rand64"),
+        10 => { // exact powers of two (and ± 1) of every magnitude, random timestamps / phases of every magnitude
+            let p = 1u64 << cx.rng.below(64);
+            let size = match cx.rng.below(4) { 0 => p.wrapping_sub(1).max(1), 1 => p.wrapping_add(1).max(1), _ => p };
+            let off = match cx.rng.below(3) { 0 => 0, 1 => cx.rng.next_u64() % size, _ => cx.rng.next_u64() >> cx.rng.below(64) };
+            (cx.rng.next_u64() >> cx.rng.below(64), size, off, "pow2-rand")
+        }
         1 => { // realistic: epoch millis, second/minute windows, small offsets
             let size = *cx.rng.pick(&[1_000u64, 10_000, 60_000, 3_600_000, 86_400_000]);
             let ts = 1_600_000_000_000 + cx.rng.next_u64() % 200_000_000_000;
@@ -716,29 +1087,30 @@ fn gen_tumble(cx: &mut Ctx) -> (u64, u64, u64, &'static str) {
     }
 }
 
-fn gen_events(cx: &mut Ctx) -> (Vec<KRow>, u64, u64) {
+/// `large`: 64..=400 rows, 1..=3 keys, `size = 1` or a span of 50..200 windows (many groups) or very few windows (big groups)
+fn gen_events(cx: &mut Ctx, large: bool) -> (Vec<KRow>, u64, u64) {
     const MAX: u64 = u64::MAX;
-    let len = match cx.rng.below(8) { 0 => 0, 1 => 1, 2 => 2, 3 | 4 => 3 + cx.rng.below(8), _ => 8 + cx.rng.below(40) };
+    let len = if large { 64 + cx.rng.below(337) } else { match cx.rng.below(8) { 0 => 0, 1 => 1, 2 => 2, 3 | 4 => 3 + cx.rng.below(8), _ => 8 + cx.rng.below(40) } };
     // 1 in 8: a huge window size (2^40 .. 2^63): few windows fit below 2^64, the phase is a 64-bit number
-    let huge = cx.rng.chance(1, 8);
+    let huge = cx.rng.chance(1, if large { 16 } else { 8 });
     let size: u64 = if huge { ((1u64 << 63) >> cx.rng.below(24)) + cx.rng.next_u64() % (1 << 40) }
         else { match cx.rng.below(5) { 0 => 1, 1 => 1 + cx.rng.below(12) as u64, 2 => 10, 3 => 1_000 * (1 + cx.rng.below(60) as u64), _ => 1 + cx.rng.next_u64() % 1_000_000 } };
     let off: u64 = match cx.rng.below(5) { 0 => 0, 1 => cx.rng.next_u64() % size, 2 => size.saturating_mul(1 + cx.rng.below(4) as u64).saturating_add(cx.rng.next_u64() % size), 3 => cx.rng.next_u64() % size.saturating_mul(20), _ => size };
     // base so that most event sets are fully representable; a minority has an event below off % size
     // or close to 2^64 (those runs must panic, in every mode)
     let fit = (MAX - off % size) / size; // number of whole windows between the phase and 2^64 - 1 (≥ 1 for huge sizes ≤ 2^63)
-    let (base, span) = match cx.rng.below(12) {
+    let (base, span) = match if large { 4 + cx.rng.below(8) } else { cx.rng.below(12) } {
         0 => (0u64, size.saturating_mul(3)),                       // may include ts < off % size
         1 => (MAX.saturating_sub(size.saturating_mul(4)), size.saturating_mul(4)), // may include unrepresentable ends
         2 => (off.saturating_sub(size.saturating_mul(2)), size.saturating_mul(5)), // around the offset, ts < off
         3 => (off % size, size.saturating_mul(6)),
         _ => {
             let k = cx.rng.next_u64() % fit.clamp(1, 1_000_000);
-            let w = (1 + cx.rng.below(6) as u64).min((fit - k).max(1));
+            let w = (if large { match cx.rng.below(4) { 0 => 1, 1 => 2 + cx.rng.below(3) as u64, 2 => 9 + cx.rng.below(41) as u64, _ => 50 + cx.rng.below(151) as u64 } } else { 1 + cx.rng.below(6) as u64 }).min((fit - k).max(1));
             (off % size + size * k, size.saturating_mul(w).min(MAX - (off % size + size * k)).saturating_sub(1))
         }
     };
-    let nkeys = 1 + cx.rng.below(4) as i64;
+    let nkeys = 1 + cx.rng.below(if large { 3 } else { 4 }) as i64;
     let skew = cx.rng.chance(1, 3);
     let mut rows = Vec::with_capacity(len);
     for j in 0..len {
